@@ -228,27 +228,32 @@ ConcernsSafi(c, sf) ==
     [] OTHER        -> MsgHasSafi(Ev.bytes, sf)
 KF_EncapShort(c) == ConcernsSafi(c, 7)
 
-(* KF-C05-prefixsid-tail: PathAttributePrefixSID.DecodeFromBytes stops reading TLVs as soon as fewer than
-   4 octets are left and reports success, so a complete 3-octet TLV header at the very end of the
-   attribute value, whose declared length cannot fit, is silently dropped. *)
-PrefixSidTail(b, e) ==
-  /\ AttrType(b, e) = 40
-  /\ LET w == Walk("t1l2", 0, b, AttrVFrom(b, e), AttrVTo(b, e))
-     IN w.over /\ w.els[Len(w.els)].o = AttrVTo(b, e) - 3
-KF_PrefixSidTail(c) ==
+(* KF-C05-prefixsid-tail / KF-C05-tunnelencap-tail: the TLV loops of PathAttributePrefixSID.DecodeFromBytes
+   (`for len(tlvs) >= 4`, TLV header = 3 octets) and PathAttributeTunnelEncap.DecodeFromBytes
+   (`for len(value) > 4`, TLV header = 4 octets) stop and report success when exactly one TLV header is
+   left, so a complete TLV header at the very end of the attribute value, whose declared length cannot
+   fit, is silently dropped. *)
+TlvTail(b, e, typ, ek, hdr) ==
+  /\ AttrType(b, e) = typ
+  /\ LET w == Walk(ek, 0, b, AttrVFrom(b, e), AttrVTo(b, e))
+     IN w.over /\ w.els[Len(w.els)].o = AttrVTo(b, e) - hdr
+KF_TlvTail(c, typ, ek, hdr) ==
   IF c.e = "attr"
   THEN LET sl == SliceOf(c)
            n  == ElemLen("attr", 0, sl, 0, Len(sl))
-       IN n >= 0 /\ n <= Len(sl) /\ PrefixSidTail(sl, [o |-> 0, n |-> n])
+       IN n >= 0 /\ n <= Len(sl) /\ TlvTail(sl, [o |-> 0, n |-> n], typ, ek, hdr)
   ELSE LET r == ReadMsg(Ev.bytes, ClassOpts(0)) IN
        /\ r.body.t = "update"
        /\ \E i \in DOMAIN r.body.attrs.els :
             /\ r.body.attrs.els[i].o + r.body.attrs.els[i].n <= r.body.aTo
-            /\ PrefixSidTail(Ev.bytes, r.body.attrs.els[i])
+            /\ TlvTail(Ev.bytes, r.body.attrs.els[i], typ, ek, hdr)
+KF_PrefixSidTail(c)   == KF_TlvTail(c, 40, "t1l2", 3)
+KF_TunnelEncapTail(c) == KF_TlvTail(c, 23, "t2l2", 4)
 
 C05_RenderSafe_KF == \A c \in Cases : Used(c) => (~c.rpanic \/ KF_PmsiRender(c))
 C05_NoOverRead_KF ==
-  \A c \in Cases : OverReadOk(c) \/ KF_BodyIgnoresHdrLen(c) \/ KF_EncapShort(c) \/ KF_PrefixSidTail(c)
+  \A c \in Cases : \/ OverReadOk(c) \/ KF_BodyIgnoresHdrLen(c) \/ KF_EncapShort(c)
+                    \/ KF_PrefixSidTail(c) \/ KF_TunnelEncapTail(c)
 
 C05_KfCount ==
   /\ KfNote("KF-C05-pmsi-render", "C05_RenderSafe", \E c \in Cases : Used(c) /\ KF_PmsiRender(c))
@@ -256,4 +261,5 @@ C05_KfCount ==
             \E c \in Cases : ~OverReadOk(c) /\ KF_BodyIgnoresHdrLen(c))
   /\ KfNote("KF-C05-encap-short", "C05_NoOverRead", \E c \in Cases : ~OverReadOk(c) /\ KF_EncapShort(c))
   /\ KfNote("KF-C05-prefixsid-tail", "C05_NoOverRead", \E c \in Cases : ~OverReadOk(c) /\ KF_PrefixSidTail(c))
+  /\ KfNote("KF-C05-tunnelencap-tail", "C05_NoOverRead", \E c \in Cases : ~OverReadOk(c) /\ KF_TunnelEncapTail(c))
 =============================================================================
